@@ -3,7 +3,7 @@
    Update/UpdateProofs.v), about the model that the correspondence run executes
    (Update/UpdateDefs.v: newfb_state, newfb_client, setdesktop_one, send_client). *)
 From LV Require Import Region.RegionDefs Region.RegionProofs Gen.Consts_C16 Update.UpdateDefs Update.UpdateFacts
-     Update.UpdateProofs0 Update.UpdateProofs Update.UpdateThms Update.NewFB.
+     Update.UpdateProofs0 Update.UpdateProofs Update.UpdateThms Update.NewFB Update.Trans Update.Life Update.StateLevel.
 Local Open Scope Z_scope.
 
 (* after rfbNewFramebuffer the invariant of C02 holds again, with everything marked modified,
@@ -23,10 +23,12 @@ Theorem C16_inv_preserved_step : forall st o st' out,
   Inv st -> op_ok st o -> step st o = Some (st', out) -> Inv st'.
 Proof. exact step_inv. Qed.
 
-(* every read of the model after the switch sees the new buffer (all reads go through fbf st).
-   PARTIAL by construction: the model holds one framebuffer; reads of the library outside the
-   modelled readers are sampled under ASan with the old buffer freed at once. *)
-Theorem C16_no_old_buffer_use : forall st w h bpp seed x y,
+(* PARTIAL: the model holds ONE framebuffer (the state has no old buffer), so "the library never again
+   touches the old buffer" cannot be stated, let alone violated, inside the model.  What is proved is only
+   that the model's single framebuffer is the new content right after the switch (every modelled reader
+   goes through [fbf st]); the clause itself is established by test only: the harness frees the old buffer
+   the moment rfbNewFramebuffer returns and ASan watches every later access of the real library. *)
+Theorem C16_no_old_buffer_use_partial : forall st w h bpp seed x y,
   0 <= x < w -> 0 <= y < h ->
   fbf (newfb_state st w h bpp seed) x y = draw_value (fmt_bpp bpp) seed x y /\
   sFBid (newfb_state st w h bpp seed) = sFBid st + 1.
@@ -41,7 +43,7 @@ Theorem C16_size_first : forall st w h bpp seed c,
   let c1 := newfb_client w h c in
   exists c2,
     send_client st' c1 =
-      Some (c2, Some (1, [if cUseExt c then WExt (cReqChange c) (cLastErr c) w h else WNewFB w h])) /\
+      Some (c2, Some (1, [if cUseExt c then WExt (cReqChange c mod 65536) (cLastErr c mod 65536) w h else WNewFB w h])) /\
     (negb (rgn_is_empty (cR c1)) = true -> xDefer (sExt st) = 0 -> tick_client st' c1 = send_client st' c1) /\
     cNewFBPending c2 = false /\ cPW c2 = w /\ cPH c2 = h /\
     cM c2 = rgn_create_rect 0 0 w h /\ cC c2 = rgn_empty /\ cR c2 = cR c /\
@@ -50,7 +52,7 @@ Proof. exact size_first. Qed.
 
 (* ... and the following update delivers every requested pixel of the new screen as pixel data
    (instance of C02: everything in M /\ R is covered by a pixel rectangle) *)
-Theorem C16_full_contents_follow : forall st c c' n rects,
+Theorem C16_full_contents_follow_noslice : forall st c c' n rects,
   Inv st -> In c (sClients st) -> sSliceH st <= 0 ->
   cUseNewFB c && cNewFBPending c = false ->
   cM c = rgn_create_rect 0 0 (sW st) (sH st) ->
@@ -71,13 +73,47 @@ Theorem C16_rects_inside_new_size : forall st c c' n rects,
   Forall (wrect_inside (sW st) (sH st)) rects.
 Proof. exact send_rects_inside. Qed.
 
-(* the clients' pixel translation follows a depth change: what a client must hold (and, by
-   C02_send_delivers, does hold after an update) is the new content translated from the NEW depth *)
+(* the clients' pixel translation follows a change of the server format (another depth, or the same depth
+   with other bits per sample).  The model keeps, per client, the server format its translation was selected
+   for ([tFrom (cBpp c)] = cl->translateFn + table); what reaches the client goes through THAT translation
+   ([fb_for]).  rfbNewFramebuffer re-selects it when the format code changes: for a client whose translation
+   was up to date, what reaches it after the switch is the new content translated from the NEW format *)
 Theorem C16_translate_follows_depth : forall st w h bpp seed c x y,
-  0 <= x < w -> 0 <= y < h ->
-  fb_for (newfb_state st w h bpp seed) (newfb_client w h c) x y =
+  0 <= x < w -> 0 <= y < h -> tFrom (cBpp c) = sBpp st ->
+  fb_for (newfb_state st w h bpp seed) (newfb_client w h (reselect (sBpp st) bpp c)) x y =
   translate bpp (tTo (cBpp c)) (draw_value (fmt_bpp bpp) seed x y).
 Proof. exact newfb_translate. Qed.
+
+(* ... and this holds for every client of the state: "every client's translation is the one for the current
+   server format" is re-established by rfbNewFramebuffer and kept by every other operation (SetPixelFormat
+   selects for the current server format).  Dropping the re-selection (or deciding "format unchanged" from the
+   depth alone) falsifies these. *)
+Theorem C16_translation_reselected : forall st w h bpp seed,
+  TransOK st -> TransOK (newfb_state st w h bpp seed).
+Proof. exact newfb_transok. Qed.
+
+Theorem C16_translation_current : forall st o st' out,
+  Inv st -> TransOK st -> step st o = Some (st', out) -> TransOK st'.
+Proof. exact step_transok. Qed.
+
+Theorem C16_translation_current_run : forall ops st st',
+  Inv st -> run_ok st ops -> TransOK st -> run st ops = Some st' -> TransOK st'.
+Proof. exact run_transok. Qed.
+
+(* delivered-pixel form: a client with nothing pending holds, at every pixel, the framebuffer pixel translated
+   from the CURRENT server format to its own format *)
+Theorem C16_converged_in_current_format : forall st c,
+  Inv st -> TransOK st -> In c (sClients st) -> pending st c = false ->
+  forall x y, inS (sW st) (sH st) x y ->
+    pic_get (cPic c) x y = translate (sBpp st) (tTo (cBpp c)) (fbf st x y).
+Proof. exact idle_converged_current. Qed.
+
+(* non-vacuity: 16 bpp with 4 bits per sample (code 2 + 8*4) and with 5 bits (code 2) are different formats of
+   the same depth, and the translation between them is not the identity *)
+Example C16_same_depth_other_bits_nonvacuous :
+  fmt_ok 34 = true /\ fmt_bpp 34 = fmt_bpp 2 /\ translate 34 2 (15 + 16 * 8) = 31 + 32 * 17 /\
+  fmt_ok 84 = true /\ fmt_bpp 84 = fmt_bpp 4 /\ translate 84 4 (1023 + 1024 * 512) = 255 + 256 * 128.
+Proof. vm_compute. repeat split. Qed.
 
 (* SetDesktopSize: no size change unless the application performs it *)
 Theorem C16_setdesktopsize_no_resize : forall st c w h ns hookres st' out,
@@ -107,7 +143,7 @@ Proof. exact setdesktop_other. Qed.
 Theorem C16_setdesktopsize_refusal_next_send : forall st hookres c,
   hookres <> 0 -> cUseExt c = true -> cUseNewFB c = true -> cScaled c = None ->
   exists c2, send_client st (setdesktop_one true hookres c) =
-             Some (c2, Some (1, [WExt c16_reason_client hookres (sW st) (sH st)])) /\
+             Some (c2, Some (1, [WExt c16_reason_client (hookres mod 65536) (sW st) (sH st)])) /\
              cNewFBPending c2 = false /\ cReqChange c2 = 0 /\ cLastErr c2 = 0.
 Proof. exact setdesktop_refusal_sent. Qed.
 
@@ -123,7 +159,7 @@ Proof. exact refusal_answered_refuted. Qed.
 
 (* scaled screens (only their size bookkeeping is in the model): since fix_C16_2 rfbNewFramebuffer rebuilds
    the scaledScreenNext chain for the new framebuffer; the former F12 witness now tells the client 12x8 *)
-Theorem C16_scaled_follows_newfb :
+Theorem C16_scaled_follows_newfb_witness :
   exists st c c', run (init_state 12 8 4) f12_ops = Some st /\ Inv st /\
     nth_error (sClients st) 0 = Some c /\ sW st = 24 /\ sH st = 16 /\
     cScaled c = Some (12, 8) /\ xChain (sExt st) = [(12, 8)] /\
@@ -134,7 +170,7 @@ Proof. exact scaled_follows_newfb. Qed.
 (* closed but not yet reaped clients (rfbCloseClient: sock = -1, record still in the client list): since
    fix_C16_3 rfbNewFramebuffer also re-points them, reaping never touches a freed scaled screen; the
    former witness (corpus/C16/f12c_closed_scaled_newfb_reap.script) passes *)
-Theorem C16_reap_after_newfb_ok :
+Theorem C16_reap_after_newfb_ok_witness :
   exists st st', run (init_state 12 8 4) f12c_ops = Some st /\ Inv st /\ step st OpReap = Some (st', []) /\ Inv st'.
 Proof. exact reap_ok_after_newfb. Qed.
 
@@ -145,6 +181,77 @@ Proof. exact rescale_client_not_dangling. Qed.
 Theorem C16_reap_partial : forall st,
   existsb cDangling (sClients st) = false -> exists st', step st OpReap = Some (st', []).
 Proof. exact reap_partial. Qed.
+
+(* ... and that premise holds in every reachable state: "no client is closed AND points at a freed scaled
+   screen" is kept by every operation (rfbNewFramebuffer re-points closed clients, nothing else writes the
+   life flag except close / reap), so reaping is TOTAL after any history - any operations, any number of
+   clients, scaled or not, closed at any time *)
+Theorem C16_no_dangling_step : forall st o st' out,
+  NoDangling st -> step st o = Some (st', out) -> NoDangling st'.
+Proof. exact step_nodangling. Qed.
+
+Theorem C16_reap_total : forall W H bpp ops st,
+  run (init_state W H bpp) ops = Some st -> exists st', step st OpReap = Some (st', []).
+Proof. exact reap_total_reachable. Qed.
+
+(* scaled clients, universally (not only the witnesses above).
+   (a) a client with a pending size message - scaled or not - gets exactly that message with the size of ITS
+       screen and nothing else, whatever else is pending *)
+Theorem C16_size_message_first_any_client : forall st c,
+  cUseNewFB c = true -> cNewFBPending c = true ->
+  exists c',
+    send_client st c =
+      Some (c', Some (1, [if cUseExt c
+                          then WExt (cReqChange c mod 65536) (cLastErr c mod 65536)
+                                    (fst (announced_size st c)) (snd (announced_size st c))
+                          else WNewFB (fst (announced_size st c)) (snd (announced_size st c))])) /\
+    cNewFBPending c' = false /\ cScaled c' = cScaled c /\
+    cM c' = cM c /\ cC c' = cC c /\ cR c' = cR c.
+Proof. exact size_shortcircuit. Qed.
+
+(* (b) what rfbNewFramebuffer does to ANY client's scaled screen, for any old / new size and any chain: the
+       chain only grows; a connected client that is still scaled afterwards has a screen of the NEW
+       framebuffer: size (w/f, h/f) for a factor f > 1 that reproduces its old scaled size from the old
+       framebuffer, both dimensions positive, the screen is in the chain and the size message is pending *)
+Theorem C16_rescale_client : forall w h oW oH chain c,
+  let r := rescale_client w h oW oH chain c in
+  incl chain (fst r) /\
+  (cLive c = true -> cLive (snd r) = true /\
+     forall s, cScaled (snd r) = Some s ->
+       In s (fst r) /\ 0 < fst s /\ 0 < snd s /\ cNewFBPending (snd r) = true /\
+       exists f sw sh, cScaled c = Some (sw, sh) /\ 1 < f /\ s = (Z.quot w f, Z.quot h f) /\
+                       Z.quot oW f = sw /\ Z.quot oH f = sh).
+Proof. exact rescale_client_spec. Qed.
+
+(* (c) ... for the whole client list: every connected scaled client's screen is in the final chain *)
+Theorem C16_rescale_clients : forall w h oW oH l chain,
+  let r := rescale_clients w h oW oH l chain in
+  incl chain (fst r) /\
+  Forall (fun c' => cLive c' = true -> forall s, cScaled c' = Some s ->
+                    In s (fst r) /\ 0 < fst s /\ 0 < snd s /\ cNewFBPending c' = true)
+         (snd r) /\
+  length (snd r) = length l.
+Proof. exact rescale_clients_spec. Qed.
+
+(* state-level versions of C16_size_first / C16_setdesktopsize_reply / _others: tied to [newfb_state] and to
+   [step (OpSetDesktopSize ..)] instead of an arbitrary record *)
+Theorem C16_size_first_state : forall st w h bpp seed c,
+  In c (sClients st) -> cUseNewFB c = true -> cScaled c = None -> cClosed c = false ->
+  exists c1 c2,
+    In c1 (sClients (newfb_state st w h bpp seed)) /\
+    send_client (newfb_state st w h bpp seed) c1 =
+      Some (c2, Some (1, [if cUseExt c then WExt (cReqChange c mod 65536) (cLastErr c mod 65536) w h
+                          else WNewFB w h])) /\
+    cNewFBPending c2 = false /\ cPW c2 = w /\ cPH c2 = h /\
+    cM c2 = rgn_create_rect 0 0 w h /\ cC c2 = rgn_empty /\ cR c2 = cR c.
+Proof. exact size_first_state. Qed.
+
+Theorem C16_setdesktopsize_step : forall st n w h ns hr st' out m c,
+  ns <> 0 -> step st (OpSetDesktopSize n w h ns hr) = Some (st', out) ->
+  nth_error (sClients st) m = Some c ->
+  nth_error (sClients st') m = Some (setdesktop_one (Nat.eqb m n) hr c) /\
+  sW st' = sW st /\ sH st' = sH st /\ sBpp st' = sBpp st /\ sFB st' = sFB st /\ out = [].
+Proof. exact setdesktop_step. Qed.
 
 Theorem C16_close_only_flag : forall st c st' out,
   step st (OpClose c) = Some (st', out) ->
